@@ -81,6 +81,10 @@ def build(case, npc, ch, io):
     b = case['build']
     legs = [io.make_leg(l) for l in b['legs']]
     qtotal = case['qtotal']
+    if b['kind'] == 'rank3':   # not a matrix: every routine has to reject it
+        a = npc.Array.from_func(func, legs, dtype=dtype, qtotal=qtotal)
+        a.test_sanity()
+        return a
     if b['kind'] == 'direct':
         a = npc.Array.from_func(func, legs, dtype=dtype, qtotal=qtotal)
     else:
@@ -92,7 +96,7 @@ def build(case, npc, ch, io):
             groups.append(g)
             pipes.append(ch.LegPipe([legs[i] for i in g], qconj=po['qconj'], sort=po['sort'], bunch=po['bunch']))
         a = t.combine_legs(groups, pipes=pipes) if groups else t
-    assert a.rank == 2
+    assert a.rank == 2, a.rank
     # block pattern: drop / zero / rank-deficient blocks
     pat = case.get('pattern', {})
     keep_data, keep_q = [], []
@@ -155,9 +159,10 @@ class Recorder:
 
         def wrap(kind, orig):
             def f(*args, **kw):
+                blk = np.array(args[0])   # before the call: gesvd with overwrite_a=True destroys its input
                 out = orig(*args, **kw)
                 snap = tuple(np.array(x) for x in out) if isinstance(out, tuple) else np.array(out)
-                rec.calls.append((kind, np.array(args[0]), out, snap))
+                rec.calls.append((kind, blk, out, snap))
                 return out
             return f
 
@@ -189,6 +194,51 @@ class Recorder:
     def __exit__(self, *a):
         for obj, name, val in reversed(self.saved):
             setattr(obj, name, val)
+
+
+class Inject:
+    """fault injection below svd_robust: `scipy.linalg.svd` with the 'gesdd' driver raises LinAlgError
+    ('linalg_error': svd_robust has to fall back to 'gesvd') or returns NaN ('nan': _svd_worker has to retry with
+    'gesvd'; 'nan_always': both drivers return NaN, _svd_worker has to raise)."""
+
+    def __init__(self, mode):
+        self.mode = mode
+        self.gesdd_calls = 0
+        self.gesvd_calls = 0
+        self.overwrite_seen = []
+
+    def __enter__(self):
+        self.orig = scipy.linalg.svd
+        inj = self
+
+        def poison(out):
+            if isinstance(out, tuple):
+                s_ = np.array(out[1], dtype=float)
+                if s_.size:
+                    s_[0] = np.nan
+                return out[0], s_, out[2]
+            s_ = np.array(out, dtype=float)
+            if s_.size:
+                s_[0] = np.nan
+            return s_
+
+        def svd(a, full_matrices=True, compute_uv=True, overwrite_a=False, check_finite=True, lapack_driver='gesdd'):
+            if lapack_driver == 'gesdd':
+                inj.gesdd_calls += 1
+                if inj.mode == 'linalg_error':
+                    raise np.linalg.LinAlgError('injected: gesdd did not converge')
+                out = inj.orig(a, full_matrices, compute_uv, overwrite_a, check_finite, lapack_driver)
+                return poison(out) if inj.mode in ('nan', 'nan_always') else out
+            inj.gesvd_calls += 1
+            inj.overwrite_seen.append(bool(overwrite_a))
+            out = inj.orig(a, full_matrices, compute_uv, overwrite_a, check_finite, lapack_driver)
+            return poison(out) if inj.mode == 'nan_always' else out
+        if self.mode:
+            scipy.linalg.svd = svd
+        return self
+
+    def __exit__(self, *a):
+        scipy.linalg.svd = self.orig
 
 
 def fac_json(kind, out):
@@ -245,7 +295,13 @@ def call(op, a, o, npc):
     if op == 'ortho':
         return dict(O=npc.orthogonal_columns(a, new_label=o['label']))
     if op == 'speigs':
-        w, v = npc.speigs(a, o['sector'], o['k'], which=o['which'])
+        kw = dict(which=o['which'])
+        if o.get('sigma') is not None:
+            kw['sigma'] = o['sigma']
+        if o.get('ret_eigv', True) is False:
+            kw['return_eigenvectors'] = False
+            return dict(W=npc.speigs(a, o['sector'], o['k'], **kw))
+        w, v = npc.speigs(a, o['sector'], o['k'], **kw)
         return dict(W=w, Vs=v)
     raise KeyError(op)
 
@@ -587,6 +643,24 @@ def oracle(op, o, a, A, res, npc):
             bad('labels', O._labels)
         if not legs_equal(O.legs[0], a.legs[0]):
             bad('outer-leg-changed')
+    elif op == 'speigs' and 'Vs' not in res:
+        # return_eigenvectors=False: W are eigenvalues of the selected sector block
+        W = np.asarray(res['W'])
+        sec = valid(a, o['sector'])
+        q = ci.make_valid(a.legs[0].to_qflat() * a.legs[0].qconj)
+        idx = [i for i, row in enumerate(q) if [int(x) for x in row] == sec]
+        blockd = np.linalg.eigvals(A[np.ix_(idx, idx)])
+        if len(W) != min(o['k'], len(idx)):
+            bad('W-only.count', f'{len(W)} eigenvalues for k={o["k"]} in a sector of size {len(idx)}')
+        else:
+            remaining = list(blockd)
+            for w in W:
+                dd = [abs(w - x) for x in remaining]
+                j = int(np.argmin(dd))
+                if dd[j] > 1.0e-4 * scale:
+                    bad('not-eigenvalues', f'{W} vs {blockd}')
+                    break
+                remaining.pop(j)
     elif op == 'speigs':
         W, Vs = np.asarray(res['W']), res['Vs']
         if len(W) != len(Vs):
@@ -639,14 +713,19 @@ def lapack_oracle(kind, block, out_final, out):
 
 def run_case(case, npc, ch, io):
     op, o = case['op'], case['opts']
+    if op in ('svd_robust', 'math'):
+        return run_direct(case)
     a = build(case, npc, ch, io)
+    if a.rank != 2:
+        return run_rejected(case, a, npc, io)
     inp = dict(op=op, opts=o, a=dump_arr(a, io, 'codes'))
     A = a.to_ndarray().copy()
     before = dump_arr(a, io, 'codes')
     rec = Recorder(npc)
     err = None
     res = None
-    with rec:
+    inj = Inject(o.get('inject'))
+    with rec, inj:
         try:
             res = call(op, a, o, npc)
         except (ValueError, RuntimeError, NotImplementedError, AssertionError, IndexError, TypeError, KeyError,
@@ -661,10 +740,13 @@ def run_case(case, npc, ch, io):
              'eigh': ['eigh'], 'eig': ['eig'], 'eigvalsh': ['eigvalsh'], 'eigvals': ['eigvals'], 'expm': ['expm'],
              'ortho': ['qr'], 'speigs': ['speigs']}[op]
     calls = [c for c in rec.calls if c[0] in kinds]
+    if o.get('inject') == 'nan':
+        # the poisoned gesdd results were discarded by _svd_worker: one surviving (gesvd) call per block
+        calls = [c for c in calls if not (isinstance(c[2], tuple) and any(np.any(np.isnan(x)) for x in c[2]))]
     recd = dict(calls=[fac_json(c[0], c[2]) for c in calls], perms=rec.perms,
                 blocked=None if not rec.blocked else dict(axes=rec.blocked[0][0],
                                                           a=dump_arr(rec.blocked[0][1], io, 'codes')))
-    for c in calls:
+    for c in ([] if str(o.get('inject')).startswith('nan') else calls):
         p = lapack_oracle(*c)
         if p:
             orc.append(('c05.lapack-postcondition.' + p, ''))
@@ -690,8 +772,279 @@ def run_case(case, npc, ch, io):
             orc += oracle(op, o, a, A, res, npc)
         except Exception as e:   # e.g. to_ndarray of a result whose blocks do not fit its legs
             orc.append(('c05.%s.result-unusable' % op, type(e).__name__ + ': ' + str(e)[:200]))
+    if o.get('inject') and err is None and a.stored_blocks > 0:
+        # the fall-back paths must really have been taken
+        if o['inject'] == 'linalg_error' and not (inj.gesdd_calls > 0 and inj.gesvd_calls == inj.gesdd_calls):
+            orc.append(('c05.%s.gesvd-fallback-not-taken' % op, f'{inj.gesdd_calls} gesdd, {inj.gesvd_calls} gesvd'))
+        if o['inject'] == 'nan' and inj.gesvd_calls == 0:
+            orc.append(('c05.%s.nan-retry-not-taken' % op, ''))
+        if 'S' in res and np.any(np.isnan(np.asarray(res['S'], dtype=float))):
+            orc.append(('c05.%s.nan-returned' % op, ''))
     orc = classify(op, o, a, orc, calls)
-    return {'in': inp, 'rec': recd, 'out': out, 'oracle': [list(x) for x in orc]}
+    r = {'in': inp, 'rec': recd, 'out': out, 'oracle': [list(x) for x in orc]}
+    if o.get('inject') == 'nan_always' or o.get('nomodel') or (o.get('inject') == 'nan' and op == 'svd' and not o['uv']):
+        r['nomodel'] = True
+    return r
+
+
+def run_rejected(case, a, npc, io):
+    """input of rank != 2: the documented ValueError, nothing else, operand untouched"""
+    op, o = case['op'], case['opts']
+    before = a.to_ndarray().copy()
+    err = None
+    try:
+        call(op, a, o, npc)
+    except Exception as e:
+        err = io.err_class(e)
+        msg = str(e)[:200]
+    orc = []
+    if err is None:
+        orc.append(('c05.%s.rank-%d-input-accepted' % (op, a.rank), ''))
+    elif err != 'ValueError':
+        orc.append(('c05.%s.rank-%d-input.unexpected-error.%s' % (op, a.rank, err), msg))
+    if not np.array_equal(a.to_ndarray(), before):
+        orc.append(('c05.%s.input-mutated' % op, 'rank %d' % a.rank))
+    return {'in': dict(op=op, opts=o, rank=a.rank), 'rec': dict(calls=[], perms=[], blocked=None),
+            'out': {'error': err} if err else {}, 'oracle': [list(x) for x in orc], 'nomodel': True}
+
+
+# ------------------------------------------------------------------------------------------------
+# direct calls of tenpy.linalg.svd_robust.svd and of the helpers in tenpy.tools.math (no charges: numpy in, numpy out)
+
+def gen_matrix(rs, m, n, cplx, kind):
+    x = rs.randint(-3, 4, (m, n)).astype(np.complex128 if cplx else np.float64)
+    if cplx:
+        x = x + 1j * rs.randint(-3, 4, (m, n))
+    if kind == 'rankdef' and min(m, n) >= 2:
+        if n >= 2:
+            x[:, -1] = x[:, 0]
+        else:
+            x[-1, :] = x[0, :]
+    elif kind == 'zero':
+        x[...] = 0
+    elif kind == 'hermitian' and m == n:
+        x = x + x.conj().T
+    return x
+
+
+class MatvecOp:
+    """linear operator with only shape / dtype / matvec (what `matvec_to_array` is documented to need)"""
+
+    def __init__(self, A):
+        self.A = A
+        self.shape = A.shape
+        self.dtype = A.dtype
+
+    def matvec(self, v):
+        return self.A @ v
+
+
+def select(W, which, k):
+    key = {'LM': -np.abs(W), 'SM': np.abs(W), 'LR': -W.real, 'SR': W.real, 'LA': -W.real, 'SA': W.real,
+           'LI': -W.imag, 'SI': W.imag}[which]
+    return W[np.argsort(key, kind='stable')[:k]], np.sort(key)
+
+
+def run_direct(case):
+    import tenpy.linalg.svd_robust as sr
+    import tenpy.tools.math as tm
+    op, o = case['op'], case['opts']
+    rs = np.random.RandomState(case['seed'])
+    orc = []
+    out = {}
+
+    def bad(sig, detail=''):
+        orc.append(('c05.%s.%s' % ('math.' + o['fn'] if op == 'math' else op, sig), str(detail)[:300]))
+    A = gen_matrix(rs, o['m'], o['n'], o['dtype'] == 'complex', o.get('kind', 'random'))
+    A0 = A.copy()
+    scale = max(1.0, float(np.linalg.norm(A)))
+    tol = TOL * scale * 100
+    M, N = A.shape
+    err = None
+    if op == 'svd_robust':
+        inj = Inject(o.get('inject'))
+        with warnings.catch_warnings(record=True) as wlist, inj:
+            warnings.simplefilter('always')
+            try:
+                r = sr.svd(A, o['full'], o['uv'], o['overwrite'], True, o['driver'], o['warn'])
+            except ValueError as e:
+                err = 'ValueError'
+            except np.linalg.LinAlgError as e:
+                err = 'LinAlgError'
+        if o['driver'] not in ('gesdd', 'gesvd'):
+            if err != 'ValueError':
+                bad('invalid-driver-accepted', o['driver'])
+        elif err is not None:
+            bad('unexpected-error.' + err)
+        else:
+            if o['uv']:
+                U, S, Vh = r
+                K = min(M, N)
+                if o['full']:
+                    okshape = U.shape == (M, M) and Vh.shape == (N, N)
+                else:
+                    okshape = U.shape == (M, K) and Vh.shape == (K, N)
+                if not okshape or S.shape != (K,):
+                    bad('shape', f'{U.shape} {S.shape} {Vh.shape}')
+                else:
+                    if not close((U[:, :K] * S) @ Vh[:K, :], A0, tol):
+                        bad('reconstruction')
+                    if eye_dev(U.conj().T @ U) > tol or eye_dev(Vh @ Vh.conj().T) > tol:
+                        bad('not-isometric')
+            else:
+                S = r
+            if np.any(S < 0) or np.any(np.diff(S) > tol) or not close(S, np.linalg.svd(A0, compute_uv=False), tol):
+                bad('S.not-the-singular-values', S)
+            fell_back = o.get('inject') == 'linalg_error' and o['driver'] == 'gesdd'
+            if fell_back and inj.gesvd_calls != 1:
+                bad('gesvd-fallback-not-taken')
+            if o['driver'] == 'gesvd' and inj.mode and inj.gesdd_calls:
+                bad('gesdd-called-for-driver-gesvd')
+            warned = any('gesdd' in str(w.message) for w in wlist)
+            if warned != (fell_back and o['warn']):
+                bad('fallback-warning', f'warned={warned} expected={fell_back and o["warn"]}')
+            # `overwrite_a` is documented to be ignored (False) for the gesdd driver
+            if o['driver'] == 'gesdd' and not fell_back and not np.array_equal(A, A0):
+                bad('input-overwritten-with-gesdd')
+            if inj.mode and inj.overwrite_seen and inj.overwrite_seen[-1] != bool(o['overwrite']):
+                bad('overwrite_a-not-forwarded-to-gesvd', inj.overwrite_seen)
+            if not o['overwrite'] and not np.array_equal(A, A0):
+                bad('input-mutated')
+        out = {'error': err} if err else {}
+    else:
+        fn = o['fn']
+        if fn in ('qr_li', 'rq_li'):
+            cutoff = o['cutoff']
+            if fn == 'qr_li':
+                Q, R = tm.qr_li(A, cutoff)
+            else:
+                R, Q = tm.rq_li(A, cutoff)
+            sv = np.linalg.svd(A0, compute_uv=False) if A0.size else np.array([])
+            rank = int(np.sum(sv > 1.0e-9 * scale))
+            # rounding noise of a dependent column (~1e-16) may or may not exceed a tiny cutoff: K may be anything between
+            # the clear rank and the number of singular values that are not far below the cutoff
+            rank_hi = max(rank, int(np.sum(sv > 1.0e-3 * cutoff)))
+            K = Q.shape[1] if fn == 'qr_li' else Q.shape[0]
+            if not rank <= K <= rank_hi:
+                bad('rank', f'K={K} rank={rank}..{rank_hi}')
+            prod = Q @ R if fn == 'qr_li' else R @ Q
+            if prod.shape != A0.shape or not close(prod, A0, max(tol, 100 * cutoff * scale)):
+                bad('reconstruction')
+            g = Q.conj().T @ Q if fn == 'qr_li' else Q @ Q.conj().T
+            if eye_dev(g) > tol:
+                bad('Q-not-isometric', eye_dev(g))
+            if fn == 'qr_li' and R.size and np.max(np.abs(np.tril(R, -1))) > tol:
+                bad('R-not-upper-triangular')
+            # (for a wide or column-rank-deficient A the un-pivoted R can have a zero on its diagonal although every
+            #  pivoted |R_ii| was > cutoff; the docstring's "diagonal entries larger than cutoff" only holds for full
+            #  column rank, which is what is checked)
+            if fn == 'qr_li' and R.size and rank == N and np.any(np.abs(np.diag(R)) <= cutoff):
+                bad('R-diagonal-below-cutoff')
+            if fn == 'rq_li' and R.size:
+                # documented: R.T[::-1, ::-1] is upper triangular (R is "upper right" seen from the last row/column)
+                if np.max(np.abs(np.tril(R.T[::-1, ::-1], -1))) > tol:
+                    bad('R-not-upper-right')
+        elif fn == 'scalar_helpers':
+            # the remaining helpers of tools/math.py against their definitions (brute force)
+            import itertools
+            import math as pymath
+            ints = [int(x) for x in rs.randint(-12, 13, 6)]
+            for x, y in zip(ints[:3], ints[3:]):
+                if tm.gcd(x, y) != pymath.gcd(x, y):
+                    bad('gcd', (x, y))
+                if x > 0 and y > 0 and tm.lcm(x, y) != x * y // pymath.gcd(x, y):
+                    bad('lcm', (x, y))
+            g = 0
+            for x in ints:
+                g = pymath.gcd(g, x)
+            if abs(int(tm.gcd_array(np.array(ints).reshape(2, 3)))) != g:
+                bad('gcd_array', ints)
+            try:
+                tm.gcd_array([])
+                bad('gcd_array.empty-accepted')
+            except ValueError:
+                pass
+            perm = list(rs.permutation(o['m'] + 1))
+            inv = sum(1 for i, j in itertools.combinations(range(len(perm)), 2) if perm[i] > perm[j])
+            if tm.perm_sign(perm) != (-1) ** inv:
+                bad('perm_sign', perm)
+            pr = rs.random_sample(o['m'] + 1)
+            pr[0] = 0.0   # zero probabilities must not produce NaN
+            pr = pr / pr.sum()
+            nz = pr[pr > 0]
+            for nn, want in [(1, -np.sum(nz * np.log(nz))), (2, -np.log(np.sum(nz ** 2))),
+                             (0.5, 2 * np.log(np.sum(np.sqrt(nz)))), (np.inf, -np.log(np.max(nz)))]:
+                got = tm.entropy(pr, nn)
+                if not np.isfinite(got) or abs(got - want) > 1.0e-12 * max(1.0, abs(want)):
+                    bad('entropy', f'n={nn}: {got} vs {want}')
+        elif fn == 'matvec_to_array':
+            X = tm.matvec_to_array(MatvecOp(A))
+            if not np.array_equal(X, A0):
+                bad('not-the-matrix')
+        elif fn in ('speigs', 'speigsh'):
+            f = getattr(tm, fn)
+            herm = fn == 'speigsh'
+            k, which = o['k'], o['which']
+            arg = MatvecOp(A) if o['linop'] else A
+            kw = dict(which=which)
+            if not o['ret_eigv']:
+                kw['return_eigenvectors'] = False
+            d = M
+            dense = (np.linalg.eigvalsh(A0) if herm else np.linalg.eigvals(A0)) if M == N else np.array([])
+            wtol = 1.0e-6 * scale if herm else 1.0e-4 * scale
+            try:
+                with warnings.catch_warnings():
+                    warnings.simplefilter('ignore')
+                    r = f(arg, k, **kw)
+                if M != N:
+                    bad('non-square-accepted', A.shape)
+                    r = None
+            except Exception as e:
+                err = type(e).__name__
+                if M != N:
+                    if err != 'ValueError':
+                        bad('non-square.unexpected-error.' + err, str(e)[:200])
+                elif not err.startswith('Arpack'):
+                    bad('unexpected-error.' + err, str(e)[:200])
+                r = None
+            if r is not None:
+                if o['ret_eigv']:
+                    W, V = r
+                else:
+                    W, V = r, None
+                W = np.asarray(W)
+                want_n = min(k, d)
+                if len(W) != want_n or (V is not None and V.shape != (d, want_n)):
+                    bad('count', f'k={k} d={d}: {len(W)} eigenvalues' + ('' if V is None else f', V {V.shape}'))
+                else:
+                    # every returned number is an eigenvalue, and together they are the k selected by `which`
+                    sel, keys = select(np.asarray(dense, dtype=complex), which, want_n)
+                    if not match_multiset(list(W), list(sel), wtol):
+                        # ties at the selection boundary (conjugate pairs, degenerate values) are legitimate
+                        boundary_tie = want_n < d and abs(keys[want_n] - keys[want_n - 1]) <= wtol
+                        remaining = list(np.asarray(dense, dtype=complex))
+                        all_eigs = True
+                        for w in W:
+                            dd = [abs(w - x) for x in remaining]
+                            j = int(np.argmin(dd))
+                            if dd[j] > wtol:
+                                all_eigs = False
+                                break
+                            remaining.pop(j)
+                        if not all_eigs:
+                            bad('not-eigenvalues', f'{W} vs {dense}')
+                        elif not boundary_tie and not (k < d - 1 and not (herm and False)):
+                            # (k < d-1 is scipy's ARPACK: its selection rule -- e.g. |Im| for real matrices with
+                            # 'LI'/'SI', convergence to a neighbouring Ritz value -- belongs to the trusted base;
+                            #  k >= d-1 is tenpy's own dense branch with misc.argsort)
+                            bad('not-the-selected-eigenvalues', f'which={which} k={k}: {W} vs {sel}')
+                    if V is not None and not close(A0 @ V, V * W, 1.0e-7 * scale):
+                        bad('eigen-equation', np.max(np.abs(A0 @ V - V * W)))
+            out = {'error': err} if err else {}
+        if not np.array_equal(A, A0):
+            bad('input-mutated')
+    return {'in': dict(op=op, opts=o), 'rec': dict(calls=[], perms=[], blocked=None), 'out': out,
+            'oracle': [list(x) for x in orc], 'nomodel': True}
 
 
 def classify(op, o, a, orc, calls):
@@ -715,6 +1068,16 @@ def expected_error(op, o, a, A):
     """None: no error may be raised; else list of acceptable error classes ('always' = must be raised)."""
     M, N = A.shape
     ci = a.chinfo
+    if op == 'pinv' and o['cutoff'] <= 0.0:
+        return ['ValueError', 'always']
+    if op == 'polar' and o['cutoff'] < 0.0:
+        return ['ValueError', 'always']
+    if op in ('svd', 'pinv', 'polar') and o.get('inject') in ('nan', 'nan_always') and a.stored_blocks > 0 \
+            and not (op == 'svd' and o['full'] and (not o['uv'] or o['cutoff'] is not None)) \
+            and not (op == 'svd' and o['qL'] is not None and o['qR'] is not None and
+                     np.any(ci.make_valid(np.array(o['qL']) + np.array(o['qR'])) != a.qtotal)):
+        if o['inject'] == 'nan_always' or (op == 'svd' and not o['uv']):
+            return ['ValueError', 'always']
     if op == 'svd':
         if o['full'] and (not o['uv'] or o['cutoff'] is not None):
             return ['ValueError', 'always']
